@@ -86,6 +86,37 @@ def run_once(ld, lens, p, drop, via):
         kw2 = dict(kw, len_key='len', sort_key=(None if p['sort'] is None else 'len'))
         dsd = ld.new(dex).map(pull_d).batch_dynamic_bucket(bucket_cls=B, **kw2)
         ds = dsd.map(lambda b: [(x['i'], x['len']) for x in b])
+    elif via == 'tsmethod':
+        # the convenience wrapper most users call; it names the bucket class
+        # itself, so the observing subclass is put in its place for the call
+        orig = core.DynamicTimeSeriesBucket
+        core.DynamicTimeSeriesBucket = B
+        try:
+            src_ds = ld.new(examples).map(pull)
+            if len(lens) % 2:
+                ds = src_ds.batch_dynamic_time_series_bucket(
+                    kw['batch_size'], kw['len_key'], kw['max_padding_rate'],
+                    kw['max_total_size'], kw['expiration'], kw['max_buffered_examples'],
+                    kw['drop_incomplete'], kw['sort_key'], kw['reverse_sort'])
+            else:
+                ds = src_ds.batch_dynamic_time_series_bucket(
+                    batch_size=kw['batch_size'], len_key=kw['len_key'],
+                    max_padding_rate=kw['max_padding_rate'],
+                    max_total_size=kw['max_total_size'], expiration=kw['expiration'],
+                    max_buffered_examples=kw['max_buffered_examples'],
+                    drop_incomplete=kw['drop_incomplete'], sort_key=kw['sort_key'],
+                    reverse_sort=kw['reverse_sort'])
+        finally:
+            core.DynamicTimeSeriesBucket = orig
+    elif via == 'method' and len(lens) % 2:
+        # everything the signature allows to be positional, positionally:
+        # batch_dynamic_bucket(bucket_cls, expiration, max_buffered_examples,
+        #                      drop_incomplete, sort_key, reverse_sort, **bucket_kwargs)
+        ds = ld.new(examples).map(pull).batch_dynamic_bucket(
+            B, kw['expiration'], kw['max_buffered_examples'], kw['drop_incomplete'],
+            kw['sort_key'], kw['reverse_sort'], batch_size=kw['batch_size'],
+            len_key=kw['len_key'], max_padding_rate=kw['max_padding_rate'],
+            max_total_size=kw['max_total_size'])
     elif via == 'method':
         ds = ld.new(examples).map(pull).batch_dynamic_bucket(bucket_cls=B, **kw)
     else:
@@ -268,7 +299,8 @@ def run_shard(spec, res):
                     cnt += 1
                     if cnt % spec['mod'] != spec['rem']:
                         continue
-                    via = 'class' if cnt % 5 else ('method' if cnt % 10 else 'strkeys')
+                    via = 'class' if cnt % 5 else (('method', 'tsmethod')[(cnt // 10) % 2]
+                                                   if cnt % 10 else 'strkeys')
                     if via != 'class':
                         via += ':' + VIAS[(cnt // 10) % len(VIAS)]
                     check(ld, lens, p, via, res)
